@@ -97,6 +97,19 @@ OpCall(Do(_)) ==
 (* `params` gives, per parameter, the ARGUMENT KIND that determines the      *)
 (* classes the argument ranges over.  "L:T" / "Item:T": list of / element of *)
 (* the point's element type.                                                 *)
+(*                                                                           *)
+(* THE TYPE-ARGUMENT DIMENSION.  A generic built-in (one whose signature     *)
+(* mentions the type parameter T: all of List[T]) is one piece of host code  *)
+(* that runs for every instantiation; what it is handed is the element's     *)
+(* vtable (size, alignment, clone / drop / eq functions).  The domain of a   *)
+(* generic built-in is therefore built-in x ELEMENT TYPE x arguments, and    *)
+(* the element types are chosen per SIZE CLASS of their representation       *)
+(* (ElemSize): zero-sized `()` (a list of them never allocates), 1, 2, 4 and *)
+(* 8 byte scalars, String (reference counted: clone and drop functions), a   *)
+(* nested list, an optional value (discriminant + payload) and a record of   *)
+(* fields of mixed sizes (padding, a String inside).  Lists range over the   *)
+(* LENGTH classes 0, 1, 2, 3 and 9 (GrowthLen: more than the first           *)
+(* allocation of every element size holds, i.e. past one growth step).       *)
 
 B(n, ps) == [name |-> n, params |-> ps]
 
@@ -151,6 +164,8 @@ Builtins ==
     \* operators on the non-numeric built-in types
     B("op:String.+", <<"Str", "Str">>), B("op:String.==", <<"Str", "Str">>), B("op:String.!=", <<"Str", "Str">>),
     B("op:List.+", <<"L:T", "L:T">>), B("op:List.==", <<"L:T", "L:T">>), B("op:List.!=", <<"L:T", "L:T">>),
+    \* `for x in l { .. }` and the list literal `[e1, .., en]` of n element expressions
+    B("op:List.for", <<"L:T">>), B("op:List.literal", <<"L:T">>),
     B("op:IpAddr./", <<"Ip", "PfxLen">>), B("op:IpAddr.==", <<"Ip", "Ip">>), B("op:IpAddr.!=", <<"Ip", "Ip">>),
     B("op:Prefix.==", <<"Pfx", "Pfx">>), B("op:Prefix.!=", <<"Pfx", "Pfx">>),
     B("op:Asn.==", <<"Asn", "Asn">>), B("op:Asn.!=", <<"Asn", "Asn">>),
@@ -163,9 +178,18 @@ Generic(b) == \E i \in 1..Len(b.params) : b.params[i] \in {"L:T", "Item:T"}
 (* List.new has a type parameter but no parameter that mentions it *)
 IsGeneric(b) == Generic(b) \/ b.name = "List.new"
 
-ElemKinds == {"u8", "u64", "str", "char"}
-ListKind(e) == CASE e = "u8" -> "L:u8" [] e = "u64" -> "L:u64" [] e = "str" -> "L:str" [] e = "char" -> "L:char"
-ItemKind(e) == CASE e = "u8" -> "Item:u8" [] e = "u64" -> "Item:u64" [] e = "str" -> "Item:str" [] e = "char" -> "Item:char"
+(* element type -> size class of its representation.  "list_u64" is List[u64], *)
+(* "opt_u64" is Option[u64], "rec" is a record { a: u8, b: u64, c: String,     *)
+(* d: u16 } declared by the script.                                            *)
+ElemSize == [unit |-> "0", u8 |-> "1", u16 |-> "2", u32 |-> "4", char |-> "4", u64 |-> "8",
+             str |-> "String", list_u64 |-> "List", opt_u64 |-> "Option", rec |-> "record"]
+ElemKinds   == DOMAIN ElemSize
+SizeClasses == {"0", "1", "2", "4", "8", "String", "List", "Option", "record"}
+ElemsOfSize(z) == {e \in ElemKinds : ElemSize[e] = z}
+(* a type with a single value: no value of it is absent from a non-empty list *)
+SingleValued(e) == e = "unit"
+ListKind(e) == "L:" \o e
+ItemKind(e) == "Item:" \o e
 Subst(k, e) == IF k = "L:T" THEN ListKind(e) ELSE IF k = "Item:T" THEN ItemKind(e) ELSE k
 ListKinds == {ListKind(e) : e \in ElemKinds}
 ItemKinds == {ItemKind(e) : e \in ElemKinds}
@@ -174,6 +198,15 @@ NumKind(t) == CASE t = "u8" -> "Num:u8" [] t = "u16" -> "Num:u16" [] t = "u32" -
                 [] t = "f32" -> "Num:f32" [] t = "f64" -> "Num:f64"
 NumKinds == {NumKind(t) : t \in NumTypes}
 TypeOfNumKind(k) == CHOOSE t \in NumTypes : NumKind(t) = k
+
+(* length classes of list arguments, and the lengths they stand for.  The     *)
+(* first allocation of a list holds 8 elements of size 1 and 4 elements of    *)
+(* any other non-zero size (compute_capacity): "nine" is past one growth step *)
+(* for every element size.                                                    *)
+LenOf      == [empty |-> 0, one |-> 1, two |-> 2, three |-> 3, nine |-> 9]
+LenClasses == DOMAIN LenOf
+GrowthLen  == 8
+ASSUME \E c \in LenClasses : LenOf[c] > GrowthLen
 
 (* argument classes per kind *)
 PfxLenSample == {0, 1, 24, 32, 33, 64, 128, 129, 255}
@@ -194,7 +227,7 @@ Classes(k) ==
     [] k = "Asn"    -> {"0", "65535", "65536", "u32max"}
     [] k = "Bool"   -> {"true", "false"}
     [] k = "Char"   -> {"a", "nul", "nl", "2byte", "3byte", "4byte", "max"}
-    [] k \in ListKinds -> {"empty", "one", "three", "nine"}
+    [] k \in ListKinds -> LenClasses
     [] k \in ItemKinds -> {"present", "absent"}
     [] k \in NumKinds  -> Edge(TypeOfNumKind(k))
 
@@ -235,6 +268,10 @@ Constraint(name, args) ==
             /\ args[1].k \in ListKinds                        \* "an element of the receiver"
             /\ args[1].c # "empty"
             /\ (args[1].c = "rnd" => args[1].n > 0)
+  /\ \A i \in 1..Len(args) :
+        (args[i].c = "absent" /\ \E e \in ElemKinds : SingleValued(e) /\ args[i].k = ItemKind(e)) =>
+            /\ args[1].k \in ListKinds                        \* absent from the receiver: it must be empty
+            /\ (args[1].c = "empty" \/ (args[1].c = "rnd" /\ args[1].n = 0))
 
 BuiltinPointOk(p) ==
   /\ DOMAIN p = {"kind", "name", "elem", "mode", "args"}
